@@ -3,6 +3,7 @@ package osmdoc
 import (
 	"fmt"
 	"reflect"
+	"strconv"
 	"time"
 )
 
@@ -179,7 +180,13 @@ func (s *Symbols) Read(v reflect.Value) interface{} {
 		return m
 	case reflect.String:
 		return s.StrLeaf(v.String())
-	case reflect.Int, reflect.Int8, reflect.Int16, reflect.Int32, reflect.Int64:
+	case reflect.Int8, reflect.Int16:
+		// small integer kinds only ever hold literals (the symbol table's magnitudes do not fit)
+		if v.Int() == 0 {
+			return "i0"
+		}
+		return "#" + strconv.FormatInt(v.Int(), 10)
+	case reflect.Int, reflect.Int32, reflect.Int64:
 		return s.IntLeaf(v.Int())
 	case reflect.Float32, reflect.Float64:
 		return s.FloatLeaf(v.Float())
